@@ -620,7 +620,47 @@ def _tag_atoms(p, env):
                 for x, y in ((a, b), (b, a)):
                     if x[0] == 'call' and x[1] == 'object::Object::tag' and y[0] == 'enum':
                         out.append((canon(env, x[2][0]), y[2], equal))
+            elif v[0] == 'call' and len(v[2]) == 1 and (v[1].startswith('object::Type::') or v[1].startswith('<object::Type')) and truth(c) is not None:
+                # a predicate of Type (`tag.ordered()`, `tag.is_heap()`): the variants for which it answers what the path took
+                a = deref(env, v[2][0])
+                if a[0] == 'call' and a[1] == 'object::Object::tag':
+                    tab = _type_predicate(v[1])
+                    if tab is not None:
+                        out.append((canon(env, a[2][0]), ('oneof', frozenset(k_ for k_, b_ in tab.items() if b_ == bool(truth(c)))), True))
     return out
+
+
+_TYPE_PRED = {}
+
+
+def _type_predicate(path):
+    """{variant: bool} for a one-argument bool method of object::Type, evaluated for every variant (None when it is not a pure
+    function of the variant)"""
+    if path in _TYPE_PRED:
+        return _TYPE_PRED[path]
+    from rules import tables
+    from rules.unsafe_inv import TYPE
+    import mirlib as _ml
+    F = _CTX[0].facts() if _CTX[0] is not None else _ml.CURRENT_FACTS
+    res = None
+    try:
+        fn = F.fns.get(path) if F is not None else None
+        if fn is not None and fn.arg_count == 1:
+            by_ref = (fn.local_ty(1) or '').startswith('&')
+            m = tables.enum_map(F, fn, 1, TYPE, by_ref)
+            tab = {}
+            for var, rs in m.items():
+                r1 = tables.one(rs)
+                if r1[0] == 'val' and isinstance(r1[1], tuple) and r1[1][0] == 'int':
+                    tab[var] = bool(r1[1][1])
+                else:
+                    tab = None
+                    break
+            res = tab
+    except Exception:
+        res = None
+    _TYPE_PRED[path] = res
+    return res
 
 
 def _contradictory(atoms):
